@@ -81,6 +81,18 @@ func buildSched(tmp string) (bin string, instrumented []string, err error) {
 			if perr != nil {
 				return "", nil, fmt.Errorf("cannot parse %s: %v", f, perr)
 			}
+			// the controlled scheduler owns only the goroutines of the harness: code under test that starts its own
+			// goroutines cannot be explored soundly (its scheduling points would be attributed to the wrong thread)
+			spawns := false
+			ast.Inspect(af, func(n ast.Node) bool {
+				if _, ok := n.(*ast.GoStmt); ok {
+					spawns = true
+				}
+				return !spawns
+			})
+			if spawns {
+				return "", nil, fmt.Errorf("%s starts goroutines of its own: not explorable under the controlled scheduler", f)
+			}
 			changed := false
 			syncName, atomName := "", ""
 			for _, im := range af.Imports {
